@@ -29,6 +29,8 @@ GR = {
     "almost11u": dict(freq=[0.1, 0.2, 0.3], dir=[30.0 * k for k in (5, 6, 7, 8, 9, 10, 0, 1, 2, 3, 4)]),
     "desc4": dict(freq=[0.05, 0.1, 0.2, 0.4], dir=[270.0, 180.0, 90.0, 0.0]),
     "unsorted6": dict(freq=[0.1, 0.2, 0.3], dir=[120.0, 180.0, 240.0, 300.0, 0.0, 60.0]),
+    # full circle stored evens-then-odds: the first two stored directions are not neighbours on the circle
+    "shuffled6": dict(freq=[0.1, 0.2, 0.3], dir=[0.0, 120.0, 240.0, 60.0, 180.0, 300.0]),
 }
 
 
@@ -63,7 +65,7 @@ def _window(vals2d, f, dirs, i, j, fw, dw):
 
 
 @harness(P,
-         quick=grid(g=["circ4", "unsorted4", "partial4"], fw=[1, 3], dw=[1, 3], lead=[()]) + grid(g=["circ6"], fw=[1, 3], dw=[5], lead=[()]) + grid(g=["almost15"], fw=[1], dw=[3], lead=[()]) + grid(g=["unsorted6"], fw=[1, 3], dw=[3, 5], lead=[()]) + grid(g=["circ4"], fw=[3], dw=[3], lead=[(("site", 2),)]),
+         quick=grid(g=["circ4", "unsorted4", "partial4"], fw=[1, 3], dw=[1, 3], lead=[()]) + grid(g=["circ6"], fw=[1, 3], dw=[5], lead=[()]) + grid(g=["almost15"], fw=[1], dw=[3], lead=[()]) + grid(g=["unsorted6"], fw=[1, 3], dw=[3, 5], lead=[()]) + grid(g=["shuffled6"], fw=[1, 3], dw=[3], lead=[()]) + grid(g=["circ4"], fw=[3], dw=[3], lead=[(("site", 2),)]),
          thorough=grid(g=["desc4", "circ6"], fw=[1, 3], dw=[1, 3, 5], lead=[()]) + grid(g=["almost15", "almost11u"], fw=[1, 3], dw=[3, 5], lead=[()]) + grid(g=["circ6"], fw=[5], dw=[1, 5], lead=[()]) + grid(g=["unsorted4", "partial4"], fw=[3], dw=[3], lead=[(("time", 2),)]))
 def smooth_values(env, g, fw, dw, lead):
     """Coordinates kept; window mean where the window fits; within [min,max] of the neighbourhood elsewhere."""
